@@ -213,6 +213,13 @@ def parse_entry(b):
     if glb.get("MISSING") is not MISSING:
         raise Unparsed("MISSING is not the placeholder")
 
+    # the two generated locals are recognised by their role (the dict / the list initialised empty at the top), not by
+    # their spelling: a renaming of KWARGS / TARGS in the generator is not a difference
+    KW = next((x.targets[0].id for x in fn.body if isinstance(x, ast.Assign) and len(x.targets) == 1 and isinstance(x.targets[0], ast.Name)
+               and isinstance(x.value, ast.Dict) and not x.value.keys), "KWARGS")
+    TA = next((x.targets[0].id for x in fn.body if isinstance(x, ast.Assign) and len(x.targets) == 1 and isinstance(x.targets[0], ast.Name)
+               and isinstance(x.value, ast.List) and not x.value.elts), "TARGS")
+
     def ident(name):
         if name == "self":
             return [2]
@@ -273,7 +280,7 @@ def parse_entry(b):
         key = []
         for el in sub.slice.elts:
             if isinstance(el, ast.Starred):
-                if not (isinstance(el.value, ast.Name) and el.value.id == "TARGS"):
+                if not (isinstance(el.value, ast.Name) and el.value.id == TA):
                     raise Unparsed("starred key")
                 key.append([2])
             elif isinstance(el, ast.Tuple):
@@ -293,7 +300,7 @@ def parse_entry(b):
             args.append([0, ident(x.id)])
         for kw in ret.value.keywords:
             if kw.arg is None:
-                if not (isinstance(kw.value, ast.Name) and kw.value.id == "KWARGS"):
+                if not (isinstance(kw.value, ast.Name) and kw.value.id == KW):
                     raise Unparsed("**")
                 args.append([2])
             else:
@@ -313,21 +320,21 @@ def parse_entry(b):
     i = 0
     while i < len(stmts):
         s = stmts[i]
-        if isinstance(s, ast.Assign) and len(s.targets) == 1 and isinstance(s.targets[0], ast.Name) and s.targets[0].id == "KWARGS" \
+        if isinstance(s, ast.Assign) and len(s.targets) == 1 and isinstance(s.targets[0], ast.Name) and s.targets[0].id == KW \
                 and isinstance(s.value, ast.Dict) and not s.value.keys:
             body.append([0])
-        elif isinstance(s, ast.Assign) and len(s.targets) == 1 and isinstance(s.targets[0], ast.Name) and s.targets[0].id == "TARGS" \
+        elif isinstance(s, ast.Assign) and len(s.targets) == 1 and isinstance(s.targets[0], ast.Name) and s.targets[0].id == TA \
                 and isinstance(s.value, ast.List) and not s.value.elts:
             body.append([1])
         elif isinstance(s, ast.If) and not s.orelse and missing_test(s.test, ast.IsNot) is not None:
             t = missing_test(s.test, ast.IsNot)
             try:
                 s1, s2 = s.body
-                assert isinstance(s1, ast.Assign) and isinstance(s1.targets[0], ast.Subscript) and s1.targets[0].value.id == "KWARGS"
+                assert isinstance(s1, ast.Assign) and isinstance(s1.targets[0], ast.Subscript) and s1.targets[0].value.id == KW
                 kn = NAME_ID[s1.targets[0].slice.value]
                 v = ident(s1.value.id)
                 c = s2.value
-                assert isinstance(s2, ast.Expr) and c.func.attr == "append" and c.func.value.id == "TARGS" and len(c.args) == 1
+                assert isinstance(s2, ast.Expr) and c.func.attr == "append" and c.func.value.id == TA and len(c.args) == 1
                 tup = c.args[0]
                 tn = NAME_ID[tup.elts[0].value]
                 f, ta = lkcall(tup.elts[1])
